@@ -298,6 +298,11 @@ def render(case):
         files.update(fs)
         stdin_lines = ['stdin = ( ' + src[0]] + src[1:] + [')'] if len(src) > 1 or fam['actStdin'] == 'tail' \
             else ['stdin = ' + src[0]]
+        if fam['actStdin'] == 'file' and zlib.crc32(json.dumps(fam, sort_keys=True).encode()) % 2:
+            # the file is one of the SANDBOX, made by an instruction of [setup] that comes AFTER `stdin =`: a text
+            # source that depends on the sandbox is validated when [setup] has been executed
+            files = {k: v for k, v in files.items() if k != 'sfZ.txt'}
+            stdin_lines = ['stdin = -contents-of -rel-tmp sfZ.txt', 'file -rel-tmp sfZ.txt = <<EOF', CH[20], 'EOF']
     cd_lines = {'none': [], 'sub': ['dir sub', 'cd sub'], 'tmp': ['cd -rel-tmp .']}[fam['cd']]
     # assemble: [conf] [setup] symbols, cd(1), defs, stdin, cd(2) ... [phase] cd(2) use [assert] assertions
     lines = []
